@@ -10,27 +10,30 @@ open ChanSrv (Srv bytes drain exitOf)
 open ChanRun
 
 /-- what an unbusy dispatch does to a world that satisfies the invariant -/
-theorem unbusy_shape (mt : Metrics) {w w' : World Srv} (hI : SInv mt w)
+theorem unbusy_shape (mt : Metrics) {w w' : World Srv} (hI : SInv0 mt w)
     (h : step spec mt w .unbusy = .ok w') :
-    ∃ f, w.chan.serving = some f ∧ w.pend = [f] ∧
-      w' = advance w f (drain mt f w.chan.queue).1 [] (drain mt f w.chan.queue).2.1
-        (drain mt f w.chan.queue).2.2 [] := by
+    ∃ f, w.chan.serving = some f ∧ w.pend = [f] ∧ kmin w.kq = some (.unbusy f) ∧
+      w' = advance w f (drain mt f w.chan.queue).1 [] (w.kq.erase (.unbusy f))
+        (drain mt f w.chan.queue).2.1 (drain mt f w.chan.queue).2.2 [] := by
   cases hs : w.chan.serving with
   | none =>
     have := (hI.idle hs).1
     simp [step, this, popMin, minTime] at h
   | some f =>
     obtain ⟨hp, hcf, _⟩ := hI.busy f hs
-    refine ⟨f, rfl, hp, ?_⟩
     simp only [step, hp, popMin_single] at h
     have : ¬ f < w.clock := by omega
-    simp only [this, if_false, spec, ChanSrv.unbusy, Except.ok.injEq] at h
+    simp only [this, if_false] at h
+    by_cases hk : kmin w.kq = some (.unbusy f)
+    case neg => simp [hk] at h
+    refine ⟨f, rfl, hp, hk, ?_⟩
+    simp only [hk, ne_eq, not_true_eq_false, if_false, spec, ChanSrv.unbusy, Except.ok.injEq] at h
     exact h.symm
 
 /-- an unbusy dispatch preserves the invariant -/
-theorem unbusy_SInv (mt : Metrics) {w w' : World Srv} (hI : SInv mt w)
-    (h : step spec mt w .unbusy = .ok w') : SInv mt w' := by
-  obtain ⟨f, hs, hp, rfl⟩ := unbusy_shape mt hI h
+theorem unbusy_SInv0 (mt : Metrics) {w w' : World Srv} (hI : SInv0 mt w)
+    (h : step spec mt w .unbusy = .ok w') : SInv0 mt w' := by
+  obtain ⟨f, hs, hp, _, rfl⟩ := unbusy_shape mt hI h
   obtain ⟨hbusy, hidle, hhor, hsl, hperm, hfifo, hex, hno⟩ := hI
   obtain ⟨_, hcf, _⟩ := hbusy f hs
   obtain ⟨d1, d2, d3⟩ := drain_started mt f w.chan.queue
@@ -90,29 +93,6 @@ theorem unbusy_SInv (mt : Metrics) {w w' : World Srv} (hI : SInv mt w)
     simp only [List.mem_map] at hb
     obtain ⟨x, _, rfl⟩ := hb
     exact hhor' a ha
-
-theorem step_SInv (mt : Metrics) {w w' : World Srv} (hI : SInv mt w) (op : Op)
-    (h : step spec mt w op = .ok w') : SInv mt w' := by
-  cases op with
-  | offer t m => exact offer_SInv mt hI t m h
-  | unbusy => exact unbusy_SInv mt hI h
-
-theorem runFrom_SInv (mt : Metrics) (ops : List Op) :
-    ∀ {w w' : World Srv}, SInv mt w → runFrom spec mt w ops = .ok w' → SInv mt w' := by
-  induction ops with
-  | nil => intro w w' hI h; simp only [runFrom, Except.ok.injEq] at h; exact h ▸ hI
-  | cons op ops ih =>
-    intro w w' hI h
-    simp only [runFrom] at h
-    cases hst : step spec mt w op with
-    | error e => simp [hst] at h
-    | ok w1 =>
-      simp only [hst] at h
-      exact ih (step_SInv mt hI op hst) h
-
-/-- the invariant holds after every script the abstract server accepts -/
-theorem srun_SInv {mt : Metrics} {ops : List Op} {w : World Srv} (h : srun mt ops = .ok w) :
-    SInv mt w := runFrom_SInv mt ops (init_SInv mt) h
 
 /-- prefix-closure: a successful run passes through successful runs -/
 theorem runFrom_append {σ : Type} (I : Impl σ) (mt : Metrics) (ops ops' : List Op) (w : World σ) :
